@@ -6,6 +6,7 @@
   hypothesis `hn : n·n = 1` exactly where it is needed, and the general (any-normal) law is proved too.
 -/
 import PW.Model.Plane
+import PW.Gen.PlaneFn
 import PW.Lemmas.Vec
 import Mathlib.Tactic.Ring
 import Mathlib.Tactic.LinearCombination
@@ -246,5 +247,98 @@ example : let pl : Plane ℚ := ⟨⟨0, 0, 1⟩, ⟨0, 0, 1⟩⟩
     pl.n.dot pl.n = 1 ∧ pl.signedDistance ⟨3, 4, 5⟩ = 4 ∧ pl.sign ⟨0, 0, 0⟩ = -1 ∧
     pl.pointsInFrontIdx false [⟨0,0,0⟩, ⟨0,0,2⟩, ⟨0,0,1⟩] = [1] := by
   decide +kernel
+
+/-! ## what the model takes from the source
+
+`harness/translate/c05.py` reads the literals, comparison operators and formulas of
+`polliwog/plane/_plane_functions.py` and of the point-query methods of `polliwog/plane/_plane_object.py` out of the
+source text into `PW/Gen/PlaneFn.lean` on every run.  The theorems below state that each generated value is the one the
+hand-written model `PW/Model/Plane.lean` was written from (and, where the literal is a Lean literal of the model, that
+the model computes with exactly the generated value), so that an edit of one of them in the source breaks a proof
+obligation here. -/
+
+/-- `project_point_to_plane` passes `factor=-1`: the model's `projectFactor`. -/
+theorem gen_project_factor :
+    PW.Gen.PlaneFn.projectFactor = -1 ∧ PW.Gen.PlaneFn.projectCallOk = true ∧
+    (projectFactor (K := K)) = ((PW.Gen.PlaneFn.projectFactor : Int) : K) ∧
+    ∀ (p : V3 K) (e : V4 K),
+      projectPointToPlane p e = translateAlongNormal p e ((PW.Gen.PlaneFn.projectFactor : Int) : K) := by
+  refine ⟨by decide, by decide, ?_, ?_⟩
+  · simp [projectFactor, PW.Gen.PlaneFn.projectFactor]
+  · intro p e
+    simp [projectPointToPlane, projectFactor, PW.Gen.PlaneFn.projectFactor]
+
+/-- `mirror_point_across_plane` passes `factor=-2`: the model's `mirrorFactor`. -/
+theorem gen_mirror_factor :
+    PW.Gen.PlaneFn.mirrorFactor = -2 ∧ PW.Gen.PlaneFn.mirrorCallOk = true ∧
+    (mirrorFactor (K := K)) = ((PW.Gen.PlaneFn.mirrorFactor : Int) : K) ∧
+    ∀ (p : V3 K) (e : V4 K),
+      mirrorPointAcrossPlane p e = translateAlongNormal p e ((PW.Gen.PlaneFn.mirrorFactor : Int) : K) := by
+  have h : (mirrorFactor (K := K)) = ((PW.Gen.PlaneFn.mirrorFactor : Int) : K) := by
+    simp only [mirrorFactor, PW.Gen.PlaneFn.mirrorFactor]
+    push_cast
+    ring
+  refine ⟨by decide, by decide, h, ?_⟩
+  intro p e
+  rw [← h]
+  rfl
+
+/-- `translate_points_along_plane_normal` returns `points + factor * signed_distance * normals` (single point and
+    stack), `signed_distance_to_plane` returns `vg.dot(points, normals) + offsets`, and
+    `normal_and_offset_from_plane_equations` splits `[A, B, C | D]`: the expressions `translateAlongNormal`,
+    `signedDistanceEq`, `eqNormal`, `eqOffset` were written from (operands in the translator's normal order). -/
+theorem gen_translate_formula :
+    PW.Gen.PlaneFn.translateSrc = "NORMALS * factor * SD + points" ∧
+    PW.Gen.PlaneFn.translateStackedSrc = "NORMALS * factor * SD.reshape(-1, 1) + points" ∧
+    PW.Gen.PlaneFn.signedDistanceSrc = "OFFSETS + vg.dot(points, NORMALS)" ∧
+    PW.Gen.PlaneFn.normalOffsetSrc =
+      "(plane_equations[:, :3] if plane_equations.ndim == 2 else plane_equations[:3], plane_equations[:, 3] if plane_equations.ndim == 2 else plane_equations[3])" :=
+  ⟨rfl, rfl, rfl, rfl⟩
+
+/-- `Plane.equation` is `[A, B, C, D]` with `A, B, C = self.normal` and `D = -self.reference_point.dot(self.normal)`:
+    the model's `Plane.equation` has exactly this last entry. -/
+theorem gen_equation_offset :
+    PW.Gen.PlaneFn.equationNormalOk = true ∧ PW.Gen.PlaneFn.equationDCoef = -1 ∧
+    PW.Gen.PlaneFn.equationDTerm = "self.reference_point.dot(self.normal)" ∧ PW.Gen.PlaneFn.equationDConst = 0 ∧
+    ∀ pl : Plane K, pl.equation.w =
+      ((PW.Gen.PlaneFn.equationDCoef : Int) : K) * pl.ref.dot pl.n + ((PW.Gen.PlaneFn.equationDConst : Int) : K) := by
+  refine ⟨by decide, by decide, rfl, by decide, ?_⟩
+  intro pl
+  simp [equation, PW.Gen.PlaneFn.equationDCoef, PW.Gen.PlaneFn.equationDConst]
+
+/-- the thin methods delegate as the model's `sign`, `signedDistance`, `distance`, `projectPoint`, `mirrorPoint`,
+    `canonicalPoint`, `flipped` do. -/
+theorem gen_method_bodies :
+    PW.Gen.PlaneFn.signSrc = "np.sign(self.signed_distance(points))" ∧
+    PW.Gen.PlaneFn.signedDistanceMethodSrc = "signed_distance_to_plane(points, self.equation)" ∧
+    PW.Gen.PlaneFn.distanceSrc = "np.absolute(self.signed_distance(points))" ∧
+    PW.Gen.PlaneFn.projectMethodSrc = "project_point_to_plane(points, self.equation)" ∧
+    PW.Gen.PlaneFn.mirrorMethodSrc = "mirror_point_across_plane(points, self.equation)" ∧
+    PW.Gen.PlaneFn.canonicalPointSrc = "self.normal * self.reference_point.dot(self.normal)" ∧
+    PW.Gen.PlaneFn.flippedSrc = "Plane(normal=-self.normal, reference_point=self.reference_point)" :=
+  ⟨rfl, rfl, rfl, rfl, rfl, rfl, rfl⟩
+
+/-- the four masks: `np.greater(sign, 0)` / `np.less(sign, 0)` for `points_in_front`, `np.greater_equal(sign, 0)` /
+    `np.less_equal(sign, 0)` for `points_on_or_in_front`, each applied to `self.sign(points)`; the model's masks are
+    exactly the generated operators applied to `pl.sign p` and the generated right-hand sides. -/
+theorem gen_front_masks :
+    (PW.Gen.PlaneFn.inFrontCmp = .gt ∧ PW.Gen.PlaneFn.inFrontInvCmp = .lt ∧
+     PW.Gen.PlaneFn.onOrInFrontCmp = .ge ∧ PW.Gen.PlaneFn.onOrInFrontInvCmp = .le) ∧
+    (PW.Gen.PlaneFn.inFrontRhs = 0 ∧ PW.Gen.PlaneFn.inFrontInvRhs = 0 ∧
+     PW.Gen.PlaneFn.onOrInFrontRhs = 0 ∧ PW.Gen.PlaneFn.onOrInFrontInvRhs = 0) ∧
+    (PW.Gen.PlaneFn.inFrontLhs = "self.sign(points)" ∧ PW.Gen.PlaneFn.inFrontInvLhs = "self.sign(points)" ∧
+     PW.Gen.PlaneFn.onOrInFrontLhs = "self.sign(points)" ∧ PW.Gen.PlaneFn.onOrInFrontInvLhs = "self.sign(points)") ∧
+    (PW.Gen.PlaneFn.inFrontSelectSrc = "np.flatnonzero(MASK) if ret_indices else points[np.flatnonzero(MASK)]" ∧
+     PW.Gen.PlaneFn.onOrInFrontSelectSrc = "np.flatnonzero(MASK) if ret_indices else points[np.flatnonzero(MASK)]") ∧
+    ∀ (pl : Plane K) (inverted : Bool) (pts : List (V3 K)),
+      pl.inFrontMask inverted pts = pts.map (fun p =>
+        if inverted then PW.Gen.PlaneFn.inFrontInvCmp.test (pl.sign p) PW.Gen.PlaneFn.inFrontInvRhs
+        else PW.Gen.PlaneFn.inFrontCmp.test (pl.sign p) PW.Gen.PlaneFn.inFrontRhs) ∧
+      pl.onOrInFrontMask inverted pts = pts.map (fun p =>
+        if inverted then PW.Gen.PlaneFn.onOrInFrontInvCmp.test (pl.sign p) PW.Gen.PlaneFn.onOrInFrontInvRhs
+        else PW.Gen.PlaneFn.onOrInFrontCmp.test (pl.sign p) PW.Gen.PlaneFn.onOrInFrontRhs) := by
+  refine ⟨by decide, by decide, ⟨rfl, rfl, rfl, rfl⟩, ⟨rfl, rfl⟩, ?_⟩
+  intro pl inverted pts
+  exact ⟨rfl, rfl⟩
 
 end PW.C05
